@@ -380,6 +380,8 @@ impl World {
     pub fn converge(&mut self, plan: &FinPlan) -> R<()> {
         let n = self.n();
         let conv = self.is("C01") || self.is("C07");
+        // in the C07 check a failure to converge contradicts C07's "the resolution propagates / still converge"
+        let lbl: &'static str = if self.is("C07") { "C07" } else { "C01" };
         self.log.push("-- final phase".into());
         for i in 0..n {
             // leave time travel / staged state
@@ -418,7 +420,7 @@ impl World {
                     let r = guard("refresh", || self.reps[i].m.refresh())?;
                     if let Err(e) = r {
                         if conv {
-                            return viol("C01", format!("refresh during the final exchange failed: {}", e));
+                            return viol(lbl, format!("refresh during the final exchange failed: {}", e));
                         }
                     }
                     self.reps[i].traveled = false;
@@ -431,7 +433,7 @@ impl World {
                 if !conv {
                     break;
                 }
-                return viol("C01", format!("exchanging items in both directions did not reach a fixpoint within {} rounds", rounds));
+                return viol(lbl, format!("exchanging items in both directions did not reach a fixpoint within {} rounds", rounds));
             }
         }
         for i in 0..n {
@@ -440,7 +442,7 @@ impl World {
                     let r = guard("reload", || self.reps[i].m.reload())?;
                     if let Err(e) = r {
                         if conv {
-                            return viol("C01", format!("final reload failed: {}", e));
+                            return viol(lbl, format!("final reload failed: {}", e));
                         }
                     }
                 }
@@ -455,7 +457,7 @@ impl World {
                 break;
             }
             if self.reps[i].store.snap() != k0 {
-                return viol("C01", format!("after the exchange reached a fixpoint replicas 0 and {} hold different items", i));
+                return viol(lbl, format!("after the exchange reached a fixpoint replicas 0 and {} hold different items", i));
             }
         }
         let o0 = obs(&self.reps[0].m)?;
@@ -465,20 +467,26 @@ impl World {
             }
             let oi = obs(&self.reps[i].m)?;
             if oi != o0 {
-                return viol("C01", format!("replicas 0 and {} hold the same items but expose different state: {}", i, first_diff(&o0, &oi)));
+                return viol(lbl, format!("replicas 0 and {} hold the same items but expose different state: {}", i, first_diff(&o0, &oi)));
             }
         }
-        // a fresh replica on a byte copy of the storage agrees too
-        let copy = crate::store::HStore::from_snap(&k0);
-        match open(copy.ad())? {
-            _ if !conv => {}
-            Ok(m) => {
-                let of = obs(&m)?;
-                if of != o0 {
-                    return viol("C01", format!("a fresh replica on a copy of the storage differs: {}", first_diff(&o0, &of)));
-                }
+        // fresh replicas on byte copies of the storage agree too (several: every instance seeds its hash
+        // tables anew, and the listing order is permuted differently for each)
+        for k in 0..3u64 {
+            if !conv {
+                break;
             }
-            Err(e) => return viol("C01", format!("cannot open a fresh replica on a copy of the converged storage: {}", e)),
+            let copy = crate::store::HStore::from_snap(&k0);
+            copy.with(|s| s.perm = if k == 0 { None } else { Some(k.wrapping_mul(0x9E3779B97F4A7C15) ^ k0.len() as u64) });
+            match open(copy.ad())? {
+                Ok(m) => {
+                    let of = obs(&m)?;
+                    if of != o0 {
+                        return viol(lbl, format!("a fresh replica on a copy of the storage differs: {}", first_diff(&o0, &of)));
+                    }
+                }
+                Err(e) => return viol(lbl, format!("cannot open a fresh replica on a copy of the converged storage: {}", e)),
+            }
         }
         if self.is("C07") && !o0.in_conflict.is_empty() {
             self.bump("c07_final_states_still_in_conflict");
